@@ -1376,6 +1376,19 @@ fn close_database(transaction_tracker: &Arc<TransactionTracker>, mem: &Arc<Trans
     }
 }
 
+#[cfg(redb_verif)]
+impl Database {
+    /// Verification hook: projection of the transaction tracker
+    pub fn verif_tracker(&self) -> crate::verif::TrackerSnapshot {
+        self.transaction_tracker.verif_snapshot()
+    }
+
+    /// Verification hook: projection of the in-memory header
+    pub fn verif_header(&self) -> crate::verif::HeaderSnapshot {
+        self.mem.verif_header()
+    }
+}
+
 impl Drop for Database {
     fn drop(&mut self) {
         if self
@@ -1487,6 +1500,22 @@ impl Builder {
 
     #[cfg(any(test, fuzzing))]
     pub fn set_region_size(&mut self, size: u64) -> &mut Self {
+        assert!(size.is_power_of_two());
+        self.region_size = Some(size);
+        self
+    }
+
+    /// Verification hook: same as the test-only `set_page_size`
+    #[cfg(redb_verif)]
+    pub fn verif_set_page_size(&mut self, size: usize) -> &mut Self {
+        assert!(size.is_power_of_two());
+        self.page_size = core::cmp::max(size, 512);
+        self
+    }
+
+    /// Verification hook: same as the test-only `set_region_size`
+    #[cfg(redb_verif)]
+    pub fn verif_set_region_size(&mut self, size: u64) -> &mut Self {
         assert!(size.is_power_of_two());
         self.region_size = Some(size);
         self
